@@ -117,8 +117,9 @@ NOFAULT = dict(silent_peer=0, after=0, withhold_idx=-1)
 
 
 def case(scheme, mode, n, t, seed, policy="random", ids=None, deadline=6000, fault=None, byz=None, sign=True, cancel=0, msglen=2, slow=None, late=None, late_ms=0,
-         signers=None):
-    return dict(late=late or [], late_ms=late_ms, signers=signers or [], scheme=scheme, mode=mode, n=n, t=t, ids=ids or list(range(1, n + 1)), seed=seed, policy=policy, deadline_ms=deadline,
+         signers=None, cancel_at=None, stall=0):
+    ca = cancel_at or (0, "", 0)
+    return dict(cancel_node=ca[0], cancel_event=ca[1], cancel_k=ca[2], stall_peer=stall, late=late or [], late_ms=late_ms, signers=signers or [], scheme=scheme, mode=mode, n=n, t=t, ids=ids or list(range(1, n + 1)), seed=seed, policy=policy, deadline_ms=deadline,
                 fault=fault or NOFAULT, byz=byz, sign=sign and scheme in ("bls", "ps"), cancel_ms=cancel, msglen=msglen, cfg=0,
                 slow_init=(slow or (0, 0))[0], slow_ms=(slow or (0, 0))[1])
 
@@ -213,6 +214,21 @@ def cases_for(pid, tr, rng, drv, wd, late=()):
                 cs.append(case(scheme, mode, n, t, rng.randrange(1 << 30), deadline=300, sign=False, fault=dict(silent_peer=0, after=0, withhold_idx=i)))
             for i in range(6 if not big else 40):
                 cs.append(case(scheme, mode, n, t, rng.randrange(1 << 30), deadline=3000, sign=False, cancel=rng.randrange(1, 25)))
+        # cancellation at a PROTOCOL POINT instead of a time: every context is cancelled from inside the call in which a node's back end
+        # emits / is handed its k-th message, for every k (the call must return although nothing will ever wake it up again)
+        for scheme in ("bls", "ps"):
+            for mode in ("direct", "loud") if not big else ("direct", "loud", "silent"):
+                for (n, t) in ([(3, 2)] if not big else [(3, 2), (4, 3)]):
+                    for node in ([1] if not big else [1, n]):
+                        for ev, kmax in (("send", n + 1), ("recv", 3 * (n - 1))):
+                            for k in range(1, kmax + 1):
+                                cs.append(case(scheme, mode, n, t, rng.randrange(1 << 30), deadline=2500, sign=False, cancel_at=(node, ev, k)))
+        # a transport that blocks: every Send towards one peer blocks until the run is over (the peer stopped reading); the calls must
+        # still return when their context ends
+        for scheme in ("bls", "ps", "eddsa"):
+            for mode in ("loud", "silent"):
+                for peer in ([3] if not big else [1, 2, 3]):
+                    cs.append(case(scheme, mode, 3, 2, rng.randrange(1 << 30), deadline=400 if scheme != "eddsa" else 900, sign=False, stall=peer))
         # the EdDSA adapter (tss-lib behind the MpcParty interface) through the complete stack: same fault catalogue
         for mode in (("loud", "silent") if big else ("loud",)):
             n, t = 3, 2
@@ -383,6 +399,10 @@ def shape(c):
         return "%s-%s/silent-after-k" % (c["scheme"], c["mode"])
     if f["withhold_idx"] >= 0:
         return "%s-%s/withheld-message" % (c["scheme"], c["mode"])
+    if c.get("cancel_node"):
+        return "%s-%s/cancelled-at-%s" % (c["scheme"], c["mode"], c["cancel_event"])
+    if c.get("stall_peer"):
+        return "%s-%s/transport-blocks" % (c["scheme"], c["mode"])
     if c.get("cancel_ms"):
         return "%s-%s/cancelled" % (c["scheme"], c["mode"])
     return "%s-%s/fault-free" % (c["scheme"], c["mode"])
